@@ -275,9 +275,50 @@ def stepLine (s : St) (ws : List String) : St × String :=
       | _ => bad
   | _ => bad
 
-def stepC (d : Data) (ws : List String) : Data × String :=
+/-! Interpreter plumbing for the two multi-object requests: `enter s objs` and `exit s objs keep` are folds of
+per-object updates followed by one update of the definitions; the driver materialises the state (extract / inject,
+extensionally the identity on every id in use) after each per-object step, so that look-ups never walk a chain of up to
+`objs.length` nested update closures.  `allDefs` is computed on the state before the fold, as in the model
+(`defs` does not change). -/
+def enterFlat (d : Data) (objs : List Nat) : Data :=
+  let D := allDefs (inject d) objs
+  let d1 := objs.foldl (fun dd o => extract (backUpObj (inject dd) o) dd [] false) d
+  extract (backUpDefs (inject d1) D) d1 [] true
+
+def exitFlat (d : Data) (objs keep : List Nat) : Data :=
+  let D := allDefs (inject d) objs
+  let d1 := objs.foldl (fun dd o => extract (restoreObj keep (inject dd) o) dd [o] true) d
+  extract (restoreDefs keep (inject d1) D) d1 [] true
+
+def stepFast (d : Data) (ws : List String) : Option (Data × String) :=
+  let s := inject d
+  match ws with
+  | ["enterm", objs, mats] => match parseNatList? objs, parseNatList? mats with
+      | some objs, some mats =>
+        if inR s (objs ++ mats) && !((objs ++ mats).any s.readOnly) then
+          let d' := enterFlat d (objs ++ mats)
+          let t := inject d'
+          some (d', "ok " ++ showObjs t objs ++ " | " ++ showMats t mats)
+        else none
+      | _, _ => none
+  | ["exitm", objs, mats, keep] => match parseNatList? objs, parseNatList? mats, parseNatList? keep with
+      | some objs, some mats, some keep =>
+        if inR s (objs ++ mats) && !((objs ++ mats).any (fun o => (s.backup o).isEmpty)) then
+          let d' := exitFlat d (objs ++ mats) keep
+          let t := inject d'
+          some (d', "ok " ++ showObjs t objs ++ " | " ++ showMats t mats)
+        else none
+      | _, _, _ => none
+  | _ => none
+
+def stepSlow (d : Data) (ws : List String) : Data × String :=
   let s := inject d
   let r := stepLine s ws
   (extract r.1 d (touchedOf s ws) (dTouchedOf ws), r.2)
+
+def stepC (d : Data) (ws : List String) : Data × String :=
+  match stepFast d ws with
+  | some r => r
+  | none => stepSlow d ws
 
 def main : IO Unit := loopState Data.empty stepC
